@@ -587,13 +587,25 @@ def run(tier="quick", root="/repo", evidence_dir=None, quiet=False):
         "flow-insensitive local def-use inside each constructor (all three are straight-line loops)",
     ])
     repo = get_repo(root)
-    for rule in (rule_r1, rule_r2, rule_r3, rule_r4, rule_r5):
-        rep.attempt(rule, rep, repo)
+    # R7 first: the constructor evaluated over symbolic atomic grids (E10) backs the structural assembly rule R3
+    from gridlint import mol_assembly
+    nv, nf = len(rep.violations), len(rep.failed_floors)
+    rep.attempt(mol_assembly.rule_assembly, rep, repo)
+    r7 = len(rep.violations) == nv and len(rep.failed_floors) == nf
+    from gridlint import fanout
+    nv, nf = len(rep.violations), len(rep.failed_floors)
+    rep.attempt(fanout.rule_fanout, rep, repo)
+    r8 = len(rep.violations) == nv and len(rep.failed_floors) == nf
+    rep.backed(rule_r1, r8, "the evaluation rule R8 decided that every constructor argument reaches its atom unchanged", rep, repo,
+               only=("R1.",))
+    rep.attempt(rule_r2, rep, repo)
+    rep.backed(rule_r3, r7, "the evaluation rule R7 decided the assembly of points, index table, centres and weights",
+               rep, repo, only=("R3.",))
+    rep.attempt(rule_r4, rep, repo)
+    rep.attempt(rule_r5, rep, repo)
     # R6: per-atom sequences are addressed in the index space of the atoms (no permutation applied twice,
     # no counter of a selection used on the full list)
     from gridlint import e9
     rep.attempt(e9.rule_index_spaces, rep, repo, ("molgrid",), "R6.index-space", 2)
-    from gridlint import mol_assembly
-    rep.attempt(mol_assembly.rule_assembly, rep, repo)
     rep.extra["source_digest"] = repo.digest(["molgrid", "atomgrid"])
     return rep.finish(evidence_dir=evidence_dir, quiet=quiet)
